@@ -47,7 +47,6 @@ ALLOWED = {"S": {"client.py"}, "E": {"client.py", "__init__.py", "operations.py"
            "N": {"__init__.py"}, "I": set()}
 
 
-E_SHADOW = "C15-extract-constant-shadowed"
 
 PLANS = [
     {"k": 0, "null": 0.0, "lens": [1], "seed": 0},
@@ -150,6 +149,14 @@ type Query { me(f: Filter): User }
 CORPUS_QUERIES = "query GetMe($f: Filter) { me(f: $f) { id } }\n"
 
 
+# regression of the former finding C15-extract-constant-shadowed (fixed by /repo edeb7cc; Coq:
+# C15_reserved_names_regression): a variable named like the operation's own constant, snake-casing off
+CORPUS2_SDL = "type Query { find(FIND_GQL: String, other: Int, gql: String): Int  count(FIND_GQL: String): Int }\n"
+CORPUS2_QUERIES = """query Find($FIND_GQL: String, $other: Int, $gql: String) { find(FIND_GQL: $FIND_GQL, other: $other, gql: $gql) }
+query Count($FIND_GQL: String) { count(FIND_GQL: $FIND_GQL) }
+"""
+
+
 def corpus_expectations(case, ev):
     def client(cfg):
         f = case.files.get(cfg)
@@ -161,6 +168,16 @@ def corpus_expectations(case, ev):
             ev.append(("violation", f"corpus (Coq example package) with {cfg!r}: {what}",
                        replay_of(case, cfg, client=(client(cfg) or "")[:1500]), True))
 
+    if case.sc.seed == -101:
+        for cfg in [c for c in case.configs if client(c) is not None]:
+            src = client(cfg)
+            if "E" in cfg:
+                expect(cfg, "the argument named like the constant FIND_GQL is not renamed / the constant is not what is sent",
+                       "FIND_GQL_:" in src and "query=FIND_GQL," in src and '"FIND_GQL": FIND_GQL_' in src
+                       and "query=COUNT_GQL," in src)
+            else:
+                expect(cfg, "without ExtractOperations the argument keeps its name FIND_GQL", "FIND_GQL:" in src and "FIND_GQL_" not in src)
+        return
     for cfg in [c for c in case.configs if "F" in c and client(c) is not None]:
         src = client(cfg)
         expect(cfg, "deferred import is not `from .get_me import GetMe` (regression of F24)",
@@ -186,12 +203,15 @@ def fixed_scenarios():
     out.insert(0, scenario.Scenario(seed=-100, sdl=CORPUS_SDL, queries=CORPUS_QUERIES,
                                     config={"convert_to_snake_case": True, "async_client": True,
                                             "opentelemetry_client": False}, features=("corpus",)))
+    out.insert(1, scenario.Scenario(seed=-101, sdl=CORPUS2_SDL, queries=CORPUS2_QUERIES,
+                                    config={"convert_to_snake_case": False, "async_client": True,
+                                            "opentelemetry_client": False}, features=("corpus",)))
     for i, snake in enumerate([False, True]):
         cfg = {"convert_to_snake_case": snake, "async_client": True, "opentelemetry_client": False}
         out.append(scenario.Scenario(seed=-11 - i, sdl=CLASH_SDL, queries=CLASH_QUERIES, config=cfg,
                                      features=("fixed", "local_clash")))
     # enable_custom_operations is part of the configuration product (async and sync client)
-    for i, (base, asyn) in enumerate([(out[2], True), (out[3], False)]):
+    for i, (base, asyn) in enumerate([(out[3], True), (out[4], False)]):
         cfg = dict(base.config, enable_custom_operations=True, async_client=asyn)
         queries = base.queries if asyn else "\n".join(
             l for l in base.queries.split("\nsubscription")[0].splitlines())
@@ -332,7 +352,7 @@ def run(ctx):
 
     c15_source.run(ctx)
     thorough = ctx.thorough
-    n_seeded = 8 if not thorough else 60
+    n_seeded = 7 if not thorough else 60
     base_seed = ctx.seed * 100000 + 1500
     scenarios = fixed_scenarios()
     for i in range(n_seeded):
@@ -646,20 +666,7 @@ def compare(case, cfg, ops, plans, base_run, res, ev, first):
         name = op.name.value
         meth = scen.method_name(name)
         shortened = None
-        # finding class: ExtractOperations + a variable whose Python name is the operation's own constant
-        params = {p[0] for p in bload.get("methods", {}).get(meth, {}).get("params", [])}
-        if "E" in cfg and const_name(name) in params:
-            b0, p0 = base_run["calls"].get((name, 0)) or {}, res["calls"].get((name, 0)) or {}
-            if norm_doc(b0.get("request", {}).get("query")) != norm_doc(p0.get("request", {}).get("query")) \
-                    or (b0.get("exc") or None) != (p0.get("exc") or None):
-                ev.append(("finding", E_SHADOW,
-                           f"{name}: with {cfg!r} the parameter {const_name(name)} shadows the operations constant: "
-                           f"sent {str(p0.get('request', {}).get('query'))[:60]!r}, outcome {p0.get('exc')}",
-                           replay_of(case, cfg, operation=name, unplugged=b0.get("request"), plugged=p0.get("request"),
-                                     outcome=p0.get("exc"))))
-                ev.append(("dist", "finding_inputs", "variable-named-like-own-constant+ExtractOperations"))
-                ev.append(("count", len(plans)))
-                continue
+        # (finding C15-extract-constant-shadowed is fixed by /repo edeb7cc: a regression is a VIOLATION below)
         for pi in range(len(plans)):
             b, p = base_run["calls"].get((name, pi)), res["calls"].get((name, pi))
             if b is None or p is None:
